@@ -1647,11 +1647,17 @@ def _finish_evidence(ck):
         "names, If bodies capturing outer values and sharing local names, empty optional inputs, stray value_info) and "
         "spox-built programs (incl. nested inlining of earlier models) x call forms (correct / surplus / duplicate / "
         "unknown / missing / mistyped) x build-scope states (hostile reserved names and counters) for the "
-        "correspondence; x 7 composition forms under onnxruntime for the oracle; non-trivial = model with >= 1 node"
+        "correspondence; x 10 composition forms under onnxruntime for the oracle; plus the version family (opset 11-17 "
+        "models whose signature-changed / meaning-changed operators sit in If / Loop / Scan bodies at depth 1-2 or at the "
+        "top level, next to ai.onnx.ml / com.microsoft nodes and unused imports) x 7 further forms built next to operators "
+        "of opset 18-21 and ai.onnx.ml 2/4; non-trivial = model with >= 1 node"
     )
     ck.assumptions += [
         "onnxruntime's result on m is what 'm computes' (m is also checked with onnx.checker full_check)",
-        "onnx.version_converter (adapt_inline) is third-party: observed by the mixed-opset oracle only",
+        "onnx.version_converter (adapt_inline) is third-party: observed by the oracle only; its defects on valid models "
+        "(sparse payloads, Hardmax 12->13, duplicate fresh names, captured Softmax result) are known findings, blamed only "
+        "when the converter alone shows them",
+        "a model onnxruntime's optimiser refuses is run with the optimiser switched off before the refusal counts",
         "outer value names chosen by the user of build() do not start with a generated '<node>__' prefix (C02's concern)",
     ]
     ck.trusted_base += [
